@@ -95,7 +95,11 @@ def compare(col, doc, sel, text, comp, case, also_root=True):
     if also_root and not isinstance(doc.target, trees.BeautifulSoup):
         col.count()
         e = R.match_list(rctx, doc.target, sel)
-        g = comp.match(doc.target)
+        try:
+            g = comp.match(doc.target)
+        except Exception as ex:  # noqa: BLE001
+            col.fail('exception-' + type(ex).__name__, case, f'match({text!r}) on the detached root: {ex!r}')
+            return exp, els
         if bool(g) != bool(e):
             col.fail('nth-mismatch-detached-root', case, f'{text!r}: match(detached root) soupsieve {g} reference {e}')
     return exp, els
